@@ -7,12 +7,18 @@ property theorems.
 
   sequential histories (put / get / ack / gc / close-reopen / crash after ANY prefix of the
   store trace of an in-flight Put), any length, any message sizes incl. page roll-over:
-    get_after_put, later_append_preserves, later_op_preserves, seq_dense, put_returns_next
+    get_after_put, later_append_preserves, later_op_preserves, seq_dense, put_returns_next,
+    failed_put_preserves (a Put that returns an error — too large, or AcquirePage failed at a
+    roll-over — leaves the queue untouched; histories may contain such Puts anywhere)
   interleavings of appender threads over the atomic steps alloc / write / persist:
     ConcurrentPut shape allowed — the full-strength statement is
         concurrent_put_statement := ConcurrentPut currentShape (fun _ => True)
     with currentShape computed from the regenerated lock structure of queue.Put.
-    Proved: concurrent_put_partial_atomic   (Put = one critical section: every schedule)
+    GC is NOT one step there: it is split into acknowledged-sequence read / index-item read /
+    data truncation / index truncation, none under the queue lock, interleavable with Puts, acks,
+    gets (events gcSnap gcRead gcTruncData gcTruncIndex).
+    Proved: concurrent_put_partial_atomic   (Put = one critical section: every schedule,
+                                              GC steps interleaved anywhere)
             concurrent_put_partial_noRestart (current three-step Put: schedules without
                                               reopen / crash / gc)
             concurrent_put_generated         (the strongest of the two that applies to the
@@ -81,6 +87,13 @@ theorem accesses_tie :
     C05.getAccesses = expectedGetAccesses ∧ C05.gcAccesses = expectedGcAccesses ∧
     C05.allocAccesses = expectedAllocAccesses ∧ C05.initSequenceAccesses = expectedInitSequenceAccesses ∧
     C05.ackAccesses = expectedAckAccesses ∧ C05.writeBytesBody = expectedWriteBytesBody := by decide
+
+/-- GC's branch conditions, the origin of every local (in particular of the truncation bound
+`dataPageID`) and its call sequence; alloc's conditions and assignments (no queue field is
+assigned before AcquirePage succeeded) -/
+theorem gc_alloc_structure_tie :
+    C05.gcConds = expectedGcConds ∧ C05.gcAssigns = expectedGcAssigns ∧ C05.gcCallSeq = expectedGcCallSeq ∧
+    C05.allocConds = expectedAllocConds ∧ C05.allocAssigns = expectedAllocAssigns := by decide
 
 /-! ## sequential histories -/
 
@@ -161,15 +174,44 @@ theorem put_returns_next (st st' : St) (m : Msg) (s : Int) (h : put st m = (st',
     obtain ⟨rfl, rfl⟩ := h
     simp [publish]
 
-/-- Sequence numbers are dense: after any history (including reopens and crashes) the
-appended sequence is the number of messages that were completely appended, minus one — so
-the i-th completed append has sequence i, and every successful Put returns the next one. -/
+/-- Sequence numbers are dense: after any history (including reopens, crashes and failed
+appends) the appended sequence is the number of messages that were completely appended, minus
+one — so the i-th completed append has sequence i, and every successful Put returns the next one. -/
 theorem seq_dense (ops : List Op) :
-    (run St.init ops).q.appended = ((ops.filter Op.completes).length : Int) - 1 := by
+    (run St.init ops).q.appended = (appendCount St.init ops : Int) - 1 := by
   have := run_appended init_inv ops
   have h0 : St.init.q.appended = -1 := by
     simp [St.init, openQ, Mem.empty, initDataPageIndex]
   omega
+
+/-- An append that FAILED (message larger than a page, or the roll-over's AcquirePage returned
+an error) leaves the queue exactly as it was — cursor, sequences, every page — so it disturbs
+neither earlier messages nor later appends (which are then covered by `get_after_put`, whose
+histories may contain failed appends anywhere). -/
+theorem failed_put_preserves (pre : List Op) (m : Msg) (st' : St) (r : PutRes)
+    (h : putF (run St.init pre) m = (st', r)) (hr : ∀ s, r ≠ .ok s) :
+    st' = run St.init pre ∧ ∀ s, get st' s = get (run St.init pre) s := by
+  have : st' = run St.init pre := by
+    unfold putF allocF at h
+    split at h
+    · injection h with h1 _; exact h1.symm
+    · split at h
+      · injection h with h1 _; exact h1.symm
+      · rename_i hs
+        exfalso
+        unfold put at h
+        split at h
+        · rename_i h1 _ ; omega
+        · injection h with _ h2
+          exact hr _ h2.symm
+  exact ⟨this, fun s => by rw [this]⟩
+
+/-- the same for a plain Put that is rejected -/
+theorem rejected_put_preserves (st st' : St) (m : Msg) (h : put st m = (st', .tooLarge)) : st' = st := by
+  unfold put at h
+  split at h
+  · injection h with h1 _; exact h1.symm
+  · injection h with _ h2; cases h2
 
 /-! ## interleavings -/
 
@@ -182,9 +224,9 @@ def concurrent_put_statement : Prop := ConcurrentPut currentShape (fun _ => True
 
 /-- Put as one critical section: the property holds under every schedule. -/
 theorem concurrent_put_partial_atomic : ConcurrentPut .atomic (fun _ => True) :=
-  concurrentPut_of_inv .atomic _ (fun σ => Inv σ.st) cinit_inv
-    (fun _ _ I h => get_readable I.core h)
-    (fun σ e σ' out I _ h => cstep_atomic_inv σ e σ' out I h)
+  concurrentPut_of_inv .atomic _ JA cinit_inv
+    (fun _ _ J h => get_readable J.1.core h)
+    (fun σ e σ' out J _ h => cstep_atomic_inv σ e σ' out J h)
 
 /-- The current three-step Put (alloc under the lock, copy outside, persist under the lock):
 the property holds under every interleaving of any number of appenders as long as the
@@ -225,6 +267,22 @@ read back (no restart in the schedule) -/
 example : ∃ σ, crun .threeStep CSt.init
       [.alloc 0 msgA, .alloc 1 msgB, .write 1, .persist 1, .write 0, .persist 0] = some σ ∧
     get σ.st 0 = .ok msgB.bytes ∧ get σ.st 1 = .ok msgA.bytes := ⟨_, rfl, by decide, by decide⟩
+
+/-- GC split into its steps and overlapped by two Puts, the second rolling the data page,
+with everything acknowledged when GC read the acknowledged sequence (the shape in which a
+bound taken from the live write cursor would delete page 0): both messages are read back. -/
+example : ∃ σ, crun .atomic CSt.init (oPre ++ [oEv] ++ oPost) = some σ ∧
+    get σ.st 1 = .ok msgA.bytes ∧ get σ.st 2 = .ok msgB64.bytes ∧ violates .atomic oPre oEv oPost = false :=
+  ⟨_, rfl, by decide, by decide, by decide⟩
+
+/-- a failed roll-over (AcquirePage error) followed by a smaller append that still fits the
+old page and by the retried roll-over: the failed Put changes nothing, the later ones are read back -/
+example :
+    let pre : List Op := [.put (Msg.gen 0 134217708)]
+    (putF (run St.init pre) msgB64).2 = .acquireFailed ∧
+    get (run St.init (pre ++ [.putFail msgB64, .put msgA, .put msgB64])) 1 = .ok msgA.bytes ∧
+    get (run St.init (pre ++ [.putFail msgB64, .put msgA, .put msgB64])) 2 = .ok msgB64.bytes := by
+  refine ⟨by decide, by decide, by decide⟩
 
 /-! ## the property does not hold for the three-step structure -/
 
